@@ -26,6 +26,8 @@ def PyExc.name : PyExc → String
 
 abbrev Py := Except PyExc
 
+deriving instance DecidableEq for Except
+
 /-- Python `str` (without lone surrogates) as a list of code points. -/
 abbrev Str := List Char
 
